@@ -14,6 +14,9 @@ pub struct ShapeEntry {
     /// bit i set = WORDS[i] (or VWORDS[i] for variant receivers) declared
     pub mask: usize,
     pub variant_receiver: bool,
+    /// a FromDeriveInput receiver whose `data` member gathers a FromVariant receiver with
+    /// `supports(mask over VWORDS)` over every variant of the input
+    pub gathered: bool,
     pub run: Runner,
 }
 
@@ -186,7 +189,7 @@ fn judge(what: &str, mask: usize, src: &str, want: &Verdict, obs: &Obs, t: &mut 
         t.violate(Violation {
             key: format!("C18 {what} mask={mask:#b} src=`{src}` :: got {got:?} expected {want:?}"),
             what: format!("{what} `{src}`: got {got:?}, the shape table says {want:?}"),
-            case: json!({"engine": "shape", "mask": mask, "src": src, "variant_receiver": what.starts_with("FromVariant")}),
+            case: json!({"engine": "shape", "mask": mask, "src": src, "variant_receiver": what.contains("FromVariant"), "gathered": what.contains("gathering")}),
             detail: json!({"observed": format!("{obs:?}")}),
         });
     }
@@ -259,9 +262,15 @@ fn api_sweep_one(set_mask: usize, t: &mut Tally) {
         let set = built.swap_remove(2).1; // the table below is checked on the insert-built set
         let set_new = ShapeSet::new(shapes);
         let _ = &set_new;
-        for (s, deco) in SHAPES.iter().flat_map(|s| ["", " = 3"].into_iter().map(move |d| (*s, d))) {
+        // (shape, body text): the four standard bodies with and without a discriminant, and the
+        // delimited bodies without fields (`V {}` is named, `V()` is a tuple)
+        let mut carriers: Vec<(Sh, String)> = SHAPES.iter().flat_map(|s| ["", " = 3"].into_iter().map(move |d| (*s, format!("{}{d}", s.body("V"))))).collect();
+        carriers.push((Sh::Named, "V {}".into()));
+        carriers.push((Sh::Tuple, "V()".into()));
+        carriers.push((Sh::Named, "V {} = 2".into()));
+        for (s, body) in carriers {
             let want = admits(flag(0), flag(1), flag(2), flag(3), s);
-            let di: syn::DeriveInput = syn::parse_str(&format!("enum E {{ #[doc = \"d\"] {}{deco} }}", s.body("V"))).unwrap();
+            let di: syn::DeriveInput = syn::parse_str(&format!("enum E {{ #[doc = \"d\"] {body} }}")).unwrap();
             let variant = match &di.data {
                 syn::Data::Enum(e) => e.variants[0].clone(),
                 _ => unreachable!(),
@@ -316,7 +325,8 @@ pub fn main(entries: Vec<ShapeEntry>) {
             let mask = c["mask"].as_u64().unwrap() as usize;
             let vr = c["variant_receiver"].as_bool().unwrap_or(false);
             let src = c["src"].as_str().unwrap();
-            let e = entries.iter().find(|e| e.mask == mask && e.variant_receiver == vr).expect("receiver of this shard");
+            let gathered = c["gathered"].as_bool().unwrap_or(false);
+            let e = entries.iter().find(|e| e.mask == mask && e.variant_receiver == vr && e.gathered == gathered).expect("receiver of this shard");
             let obs = (e.run)(src);
             println!("replay mask={mask:#b} `{src}`: {obs:?}");
             if vr {
@@ -343,6 +353,27 @@ pub fn main(entries: Vec<ShapeEntry>) {
         .par_iter()
         .map(|e| {
             let mut t = Tally::default();
+            if e.gathered {
+                let any = e.mask >> 4 & 1 == 1;
+                for (src, body) in &bs {
+                    let want = match body {
+                        Body::Union => Verdict::ErrAny,
+                        Body::Struct(_) => Verdict::Ok,
+                        Body::Enum(vs) => {
+                            let bad = vs.iter().filter(|s| !(any || admits(e.mask & 1 == 1, e.mask >> 1 & 1 == 1, e.mask >> 2 & 1 == 1, e.mask >> 3 & 1 == 1, **s))).count();
+                            if bad == 0 {
+                                Verdict::Ok
+                            } else {
+                                Verdict::Err(bad)
+                            }
+                        }
+                    };
+                    let obs = (e.run)(src);
+                    judge("FromDeriveInput gathering FromVariant", e.mask, src, &want, &obs, &mut t);
+                }
+                t.hit("gathering_receivers");
+                return t;
+            }
             if e.variant_receiver {
                 // mask over VWORDS: named, tuple, newtype, unit, any
                 let any = e.mask >> 4 & 1 == 1;
